@@ -531,7 +531,9 @@ func R10() Rule {
 						target := core.Strip(x.Call.Args[len(x.Call.Args)-1])
 						// target is either a pointer value or the address of a pointer variable
 						var objs []ssa.Value
+						var targetCell *ssa.Alloc
 						if cell := core.CellOf(target); cell != nil && isPtr(cell.Type().(*types.Pointer).Elem()) {
+							targetCell = cell
 							for _, st := range core.StoresTo(cell) {
 								if core.InstrReaches(st, x) || st.Parent() != x.Parent() {
 									objs = append(objs, st.Val)
@@ -560,7 +562,22 @@ func R10() Rule {
 							}
 							// a shallow copy (`c := *obj; &c`) of a store object still shares its maps and slices
 							if a, isAlloc := core.Resolve(o).(*ssa.Alloc); isAlloc {
-								for _, st := range core.StoresTo(a) {
+								sts := core.StoresTo(a)
+								// `p := &T{}; *p = *obj`: the whole-struct store goes through a load of the pointer variable
+								for _, fb := range a.Parent().Blocks {
+									for _, fi := range fb.Instrs {
+										st, isSt := fi.(*ssa.Store)
+										if !isSt || st.Addr == ssa.Value(a) {
+											continue
+										}
+										if core.Resolve(st.Addr) == ssa.Value(a) {
+											sts = append(sts, st)
+										} else if ld, isLd := st.Addr.(*ssa.UnOp); isLd && ld.Op == token.MUL && targetCell != nil && core.CellOf(ld.X) == targetCell {
+											sts = append(sts, st)
+										}
+									}
+								}
+								for _, st := range sts {
 									if ld, isLd := core.Strip(st.Val).(*ssa.UnOp); isLd && ld.Op == token.MUL {
 										if d, w := storeDerived(n, ld.X, map[ssa.Value]bool{}); d {
 											bad = w + " (through a struct copy, which shares the maps and slices)"
@@ -875,6 +892,52 @@ func R24() Rule {
 // R29: who may call Store.Add; gzip/drain wiring
 // ---------------------------------------------------------------------------
 
+// middlewareChain lists the gcsemu middleware constructors applied to a handler value, outermost
+// first; a call of an in-package helper with a single return is unfolded with its parameters bound
+// to the arguments.
+func middlewareChain(v ssa.Value, env map[*ssa.Parameter]ssa.Value, depth int) []string {
+	if v == nil || depth > 6 {
+		return nil
+	}
+	v = core.Resolve(v)
+	if pa, ok := v.(*ssa.Parameter); ok {
+		if a, bound := env[pa]; bound {
+			return middlewareChain(a, nil, depth+1)
+		}
+		return nil
+	}
+	call, ok := v.(*ssa.Call)
+	if !ok {
+		return nil
+	}
+	g := call.Call.StaticCallee()
+	if g == nil || core.PkgPathOf(g) != core.PkgGcsemu || len(call.Call.Args) == 0 {
+		return nil
+	}
+	switch core.FuncName(g) {
+	case "DrainRequestHandler", "GzipRequestHandler":
+		return append([]string{core.FuncName(g)}, middlewareChain(call.Call.Args[0], env, depth+1)...)
+	}
+	if g.Blocks == nil {
+		return nil
+	}
+	rets := returnsIn(g)
+	if len(rets) != 1 || len(rets[0].Results) != 1 {
+		return nil
+	}
+	sub := map[*ssa.Parameter]ssa.Value{}
+	for i, pa := range g.Params {
+		if i < len(call.Call.Args) {
+			a := call.Call.Args[i]
+			if ap, isP := core.Resolve(a).(*ssa.Parameter); isP && env[ap] != nil {
+				a = env[ap]
+			}
+			sub[pa] = a
+		}
+	}
+	return middlewareChain(rets[0].Results[0], sub, depth+1)
+}
+
 func R29() Rule {
 	return Rule{Name: "R29", Run: func(c *core.Ctx) {
 		P := c.P
@@ -910,12 +973,9 @@ func R29() Rule {
 			}
 			k++
 			pat, _ := core.ConstString(ci.Common.Args[1])
-			ok := false
-			if d, isCall := core.Resolve(ci.Common.Args[2]).(*ssa.Call); isCall && core.Call(d).IsFunc(core.PkgGcsemu, "DrainRequestHandler") {
-				if g, isCall := core.Resolve(d.Call.Args[0]).(*ssa.Call); isCall && core.Call(g).IsFunc(core.PkgGcsemu, "GzipRequestHandler") {
-					ok = true
-				}
-			}
+			// the middleware chain from the outside in, followed through wrapping helpers (`wrap(h)`)
+			chain := middlewareChain(ci.Common.Args[2], nil, 0)
+			ok := len(chain) >= 2 && chain[0] == "DrainRequestHandler" && chain[1] == "GzipRequestHandler"
 			c.Check(ok, "R29", "wiring/"+pat, ci.Instr.Pos(), "registered as DrainRequestHandler(GzipRequestHandler(h))", "the handler for "+pat+" is not wrapped in DrainRequestHandler(GzipRequestHandler(·)): gzip-encoded request bodies are stored compressed")
 		}
 		if k < 2 {
